@@ -23,6 +23,7 @@ type c06Params struct {
 	Ctx      bool   // context-aware connect
 	Extra    string // "" | "reconnect" (a user task calls Connect again during the session)
 	NoProbe  bool   // handlers only record the event and do not call Connected()
+	Direct   bool   // no proxy configured: internalConnect dials itself (through the Dialer shim)
 }
 
 func (p c06Params) name() string {
@@ -38,6 +39,9 @@ func (p c06Params) name() string {
 	}
 	if p.Ctx {
 		f += "C"
+	}
+	if p.Direct {
+		f += "D"
 	}
 	if f == "" {
 		f = "-"
@@ -59,7 +63,7 @@ func c06Scenario(p c06Params) *explore.Scenario {
 	sc := &explore.Scenario{
 		Family: "lifecycle",
 		Name:   p.name(),
-		Params: map[string]interface{}{"causes": strings.Join(p.Causes, "+"), "tracking": p.Tracking, "ping": p.Ping, "floodctl": p.FloodCtl, "ctx": p.Ctx, "extra": p.Extra, "probe": !p.NoProbe},
+		Params: map[string]interface{}{"causes": strings.Join(p.Causes, "+"), "tracking": p.Tracking, "ping": p.Ping, "floodctl": p.FloodCtl, "ctx": p.Ctx, "extra": p.Extra, "probe": !p.NoProbe, "direct": p.Direct},
 		Opt:    vx.Options{MaxSteps: 20000, Horizon: 20 * time.Second, ClockAlt: p.Ping},
 	}
 	needCancel := false
@@ -74,6 +78,9 @@ func c06Scenario(p c06Params) *explore.Scenario {
 				cfg.PingFreq = 3 * time.Second
 			}
 			cfg.Flood = !p.FloodCtl
+			if p.Direct {
+				cfg.Proxy = ""
+			}
 		})
 		if p.Tracking {
 			c.EnableStateTracking()
@@ -235,16 +242,26 @@ func c06Scenario(p c06Params) *explore.Scenario {
 
 // Refused / failing connects and no-op closes: sequential scenarios explored with a small budget.
 func c06RefusedScenario(kind string) *explore.Scenario {
+	full := kind
+	direct := strings.HasSuffix(kind, "+direct")
+	kind = strings.TrimSuffix(kind, "+direct")
 	sc := &explore.Scenario{
 		Family: "refused-connect",
-		Name:   "refused-connect/" + kind,
-		Params: map[string]interface{}{"kind": kind},
+		Name:   "refused-connect/" + full,
+		Params: map[string]interface{}{"kind": full},
 		Opt:    vx.Options{MaxSteps: 20000},
 	}
 	sc.Main = func(env *vx.Env) {
 		c := NewClient("me", func(cfg *client.Config) {
 			if kind == "no-server" {
 				cfg.Server = ""
+			}
+			if direct {
+				cfg.Proxy = ""
+			}
+			if strings.HasPrefix(kind, "tls-fail") {
+				cfg.SSL = true
+				cfg.SSLConfig = FailingTLS()
 			}
 		})
 		rec := func(name string) client.HandlerFunc {
@@ -260,6 +277,9 @@ func c06RefusedScenario(kind string) *explore.Scenario {
 			if vc == nil {
 				vc = x
 			}
+			if strings.HasPrefix(kind, "tls-fail") && len(env.Conns()) == 1 {
+				x.Preload(":irc.example NOTICE AUTH :*** plain text, not TLS\r\n")
+			}
 			x.Preload(welcome + "\r\n")
 		}
 		switch kind {
@@ -267,11 +287,39 @@ func c06RefusedScenario(kind string) *explore.Scenario {
 			err := c.Connect()
 			vx.Observe("ev", fmt.Sprintf("connect-ret ok=%v", err == nil))
 			vx.Observe("ev", fmt.Sprintf("state connected=%v", c.Connected()))
-		case "dial-error":
-			env.FailNextDial(errors.New("connection refused"))
+		case "dial-error", "tls-fail":
+			if kind == "dial-error" {
+				env.FailNextDial(errors.New("connection refused"))
+			}
 			err := c.Connect()
 			vx.Observe("ev", fmt.Sprintf("connect-ret ok=%v", err == nil))
 			vx.Observe("ev", fmt.Sprintf("state connected=%v", c.Connected()))
+		case "dial-error-then-connect", "tls-fail-then-connect":
+			// a failed attempt leaves the client usable: the next Connect works and has one full lifecycle
+			if kind == "dial-error-then-connect" {
+				env.FailNextDial(errors.New("connection refused"))
+			}
+			err := c.Connect()
+			vx.Observe("ev", fmt.Sprintf("connect-ret ok=%v", err == nil))
+			vx.Observe("ev", fmt.Sprintf("state connected=%v", c.Connected()))
+			c.Config().SSL = false
+			vc = nil
+			err2 := c.Connect()
+			vx.Observe("ev", fmt.Sprintf("connect-again-ret ok=%v", err2 == nil))
+			vx.Quiesce()
+			if err2 == nil && vc != nil {
+				vc.SendLines("PING :sync")
+				vx.Quiesce()
+				got := false
+				for _, l := range vc.Lines() {
+					if NormLine(l) == "PONG :sync" {
+						got = true
+					}
+				}
+				vx.Observe("ev", fmt.Sprintf("pong-on-second-connection=%v", got))
+				vc.EOF()
+				vx.Quiesce()
+			}
 		case "close-never-connected":
 			err := c.Close()
 			vx.Observe("ev", fmt.Sprintf("close-ret err=%v", err))
@@ -309,7 +357,17 @@ func c06RefusedScenario(kind string) *explore.Scenario {
 		ev := o.Log("ev")
 		bad := func(id, msg string) { fs = append(fs, explore.Finding{id, msg + " :: " + strings.Join(ev, "; ")}) }
 		switch kind {
-		case "no-server", "dial-error":
+		case "dial-error-then-connect", "tls-fail-then-connect":
+			if count(ev, "connect-ret ok=false") != 1 || count(ev, "state connected=false") != 1 {
+				bad("failing-connect-returned-nil", "the failing first Connect did not return an error / left Connected() true")
+			}
+			if count(ev, "connect-again-ret ok=true") != 1 || count(ev, "pong-on-second-connection=true") != 1 {
+				bad("client-unusable-after-failed-connect", "after a failed Connect the next Connect does not give a working connection")
+			}
+			if count(ev, "REGISTER") != 1 || count(ev, "DISCONNECTED") != 1 || count(ev, "CONNECTED") != 1 {
+				bad("event-count-after-failed-connect", "not exactly one REGISTER / CONNECTED / DISCONNECTED for the one established connection")
+			}
+		case "no-server", "dial-error", "tls-fail":
 			if count(ev, "connect-ret ok=false") != 1 {
 				bad("failing-connect-returned-nil", "a failing Connect did not return an error")
 			}
@@ -403,7 +461,13 @@ func init() {
 			for _, s := range []string{"close", "eof", "writeerr@2", "cancel"} {
 				add(c06Params{Causes: []string{s}, Extra: "reconnect"}, budgets, 25)
 			}
-			for _, k := range []string{"no-server", "dial-error", "close-never-connected", "already-connected"} {
+			// without a proxy: internalConnect's own dial
+			for _, s := range singles {
+				add(c06Params{Causes: []string{s}, Direct: true}, budgets, 20)
+			}
+			add(c06Params{Causes: []string{"close"}, Extra: "reconnect", Direct: true}, budgets, 25)
+			for _, k := range []string{"no-server", "dial-error", "close-never-connected", "already-connected",
+				"dial-error+direct", "already-connected+direct", "tls-fail", "tls-fail+direct", "dial-error-then-connect", "dial-error-then-connect+direct", "tls-fail-then-connect", "tls-fail-then-connect+direct"} {
 				jobs = append(jobs, ExploreJob("C06", ExploreSpec{Sc: c06RefusedScenario(k), Variants: []int{1, 2, 3}, Budgets: []explore.Budget{{0, 0}, {1, 0}, {2, 0}}, Cache: true}, 5))
 			}
 			return jobs
